@@ -117,6 +117,7 @@ type scen struct {
 	events  []ev
 	settled bool
 	oneShot bool // socket streams: accept one connection, end when it ends
+	paused  bool // the consumer of the stream's lines takes nothing until all events before the cancellation have happened
 	fifoDir string
 	// observations of the last execution
 	lines   []string
@@ -138,6 +139,9 @@ func (s *scen) name() string {
 	}
 	if s.oneShot {
 		mode += " one-shot"
+	}
+	if s.paused {
+		mode += " slow-consumer"
 	}
 	return fmt.Sprintf("%s %s [%s]", s.kind, mode, strings.Join(es, " "))
 }
@@ -179,8 +183,13 @@ func (s *scen) body() {
 		s.err = "logstream.New: " + err.Error()
 		return
 	}
+	gate := vrt.MkU(make(chan struct{}, 1))
+	if !s.paused {
+		close(vrt.Cl(gate))
+	}
 	vrt.Go(func() {
 		out := ls.Lines()
+		<-vrt.R(gate)
 		for {
 			l, ok := <-vrt.R(out)
 			if !ok {
@@ -255,6 +264,12 @@ func (s *scen) body() {
 		case 'W':
 			wk.Broadcast()
 		case 'X':
+			if s.paused {
+				// everything that can happen without the consumer has happened; now it starts taking lines
+				vrt.Quiesce()
+				close(vrt.Cl(gate))
+				vrt.Quiesce()
+			}
 			s.early = s.closed && !naturalEnd
 			cancel()
 			cancelled = true
@@ -498,7 +513,11 @@ func main() {
 		}
 	}
 	// one-shot socket streams: one writer with every script, two writers with short ones
-	for _, k := range []string{"unix", "tcp"} {
+	oneShotKinds := []string{"unix"}
+	if c.Thorough() {
+		oneShotKinds = append(oneShotKinds, "tcp")
+	}
+	for _, k := range oneShotKinds {
 		n0 := len(scens)
 		for _, a := range scripts(c.Pick(1, 3), true, 'L', 'F') {
 			add(k, [][]byte{a}, true, 0)
@@ -514,6 +533,19 @@ func main() {
 		}
 		scens = append(scens, &scen{kind: k, events: []ev{{kind: 'X'}}, settled: true, oneShot: true, fifoDir: fifoDir})
 	}
+	// a slow consumer: nothing is taken from the stream's output until all events have happened
+	{
+		var extra []*scen
+		for _, sc := range scens {
+			// (unix and tcp sockets are one implementation; quick runs the variant on unix sockets only)
+			if (sc.kind == "unix" || (sc.kind == "tcp" && c.Thorough())) && !sc.settled && !sc.oneShot && sc.nw >= 1 && sc.events[len(sc.events)-1].kind == 'X' {
+				cp := *sc
+				cp.paused = true
+				extra = append(extra, &cp)
+			}
+		}
+		scens = append(scens, extra...)
+	}
 	bound1, bound2 := c.Pick(3, 4), c.Pick(1, 3)
 	seenScen := map[string]bool{}
 	for _, s := range scens {
@@ -525,6 +557,9 @@ func main() {
 		b := bound2
 		if s.nw <= 1 {
 			b = bound1
+		}
+		if s.paused && b > c.Pick(1, 2) {
+			b = c.Pick(1, 2)
 		}
 		gsx.Explore(c, gsx.Config{
 			Scenario: s.name(), Bound: b, MaxSteps: 5000,
@@ -551,5 +586,5 @@ func main() {
 		"scheduling points: every synchronisation operation of internal/tailer/logstream and every simulated kernel operation; code between two points runs atomically",
 		"read deadlines are only ever 'now' (what mtail sets); wake-ups are issued while the stream is otherwise idle",
 	}
-	gsx.Finish(c, "stateless DFS over schedules of the stream's goroutines {accept loop, closer, connection handlers, deadline setters, reader} against one environment thread executing an enumerated event order (connect, write line / fragment / empty datagram, close, cancel at every position), settled and free-running, socket streams also in one-shot mode, with at most `bound` deviations from the default schedule; oracle: delivered lines = framing of the bytes each Read returned, per connection, plus completeness when the stream was idle after every event, closure, termination, no crash; distinct_nontrivial = distinct final observations plus distinct schedules with >=1 deviation")
+	gsx.Finish(c, "stateless DFS over schedules of the stream's goroutines {accept loop, closer, connection handlers, deadline setters, reader} against one environment thread executing an enumerated event order (connect, write line / fragment / empty datagram, close, cancel at every position), settled and free-running, socket streams also in one-shot mode and with a consumer that takes nothing until all events have happened, with at most `bound` deviations from the default schedule; oracle: delivered lines = framing of the bytes each Read returned, per connection, plus completeness when the stream was idle after every event, closure, termination, no crash; distinct_nontrivial = distinct final observations plus distinct schedules with >=1 deviation")
 }
